@@ -1,3 +1,5 @@
+import FrappyProofs.Lemmas.Cache
 import FrappyProofs.Lemmas.Logging
 import FrappyProofs.Lemmas.Rotate
+import FrappyProofs.Props.C12
 import FrappyProofs.Props.C20
